@@ -107,17 +107,81 @@ theorem pstep_within (op : Op) (k : Nat) (x y : Option Payment) (h : PStep op k 
     omega
   | setReason p r => cases hq; exact hx p rfl
 
-/-- `never_overpay`: after ANY operation list on either backend, for every payment the sum of
-    the settled and in-flight attempt amounts is at most the payment amount (so `setState`
-    never returns `ErrSentExceedsTotal` and `RemainingAmt = Value - sent` never wraps). -/
-theorem never_overpay (b : Backend) (ops : List Op) (h : Nat) (p : Payment)
+/-- `stored_within` (formerly `never_overpay`): after ANY operation list on either backend, for
+    every payment the sum of the STORED settled and in-flight attempt amounts is at most the
+    payment amount (so `setState` never returns `ErrSentExceedsTotal` and
+    `RemainingAmt = Value - sent` never wraps).  NOTE: this is about stored rows only and is also
+    true of the KV store's overwrite of a re-registered attempt id; the statement about ADMITTED
+    attempts is `never_overpay_admitted_*` below. -/
+theorem stored_within (b : Backend) (ops : List Op) (h : Nat) (p : Payment)
     (hp : (exec b Store.empty ops).payment? h = some p) : p.sent ≤ p.value :=
   exec_invariant Within pstep_within b ops Store.empty h (by intro q hq; cases hq) p hp
 
 /-- the same from any store that satisfies the invariant. -/
-theorem never_overpay_from (b : Backend) (s : Store) (hs : ∀ k, Within (s.payment? k))
+theorem stored_within_from (b : Backend) (s : Store) (hs : ∀ k, Within (s.payment? k))
     (ops : List Op) (h : Nat) : Within ((exec b s ops).payment? h) :=
   exec_invariant Within pstep_within b ops s h (hs h)
+
+/-! ## never_overpay on the ghost ledger of admitted attempts -/
+
+theorem admitted_of_ledger_eq (b : Backend) (ops : List Op) (h : Nat) (p : Payment)
+    (hl : (gexec b (Store.empty, []) ops).2 = (gexec b (Store.empty, []) ops).1.rows)
+    (hp : (exec b Store.empty ops).payment? h = some p) :
+    admittedSent (gexec b (Store.empty, []) ops).2 h ≤ p.value := by
+  rw [hl, admittedSent_rows, gexec_fst]
+  obtain ⟨i, hi, hpe⟩ := payment?_some_inv hp
+  have := stored_within b ops h p hp
+  rw [hpe] at this ⊢
+  exact this
+
+/-- `never_overpay_admitted` (SQL store, unconditional): after ANY operation list, for every
+    payment the sum over ALL ADMITTED registrations (every RegisterAttempt answered `ok` since
+    the payment was (re-)initiated) that are settled or still in flight is at most the payment
+    amount.  The ghost ledger is never overwritten; the proof shows it coincides with the stored
+    rows because the SQL store refuses a re-used attempt id. -/
+theorem never_overpay_admitted_sql (ops : List Op) (h : Nat) (p : Payment)
+    (hp : (exec .sql Store.empty ops).payment? h = some p) :
+    admittedSent (gexec .sql (Store.empty, []) ops).2 h ≤ p.value :=
+  admitted_of_ledger_eq .sql ops h p
+    (gexec_ledger .sql ops Store.empty (fun hb => by cases hb)) hp
+
+/-- `never_overpay_admitted` (KV store) under attempt-id freshness: if no registration of the
+    history uses an id its payment already stores (`freshRun`; guaranteed in lnd by the switch's
+    persistent attempt-id sequencer), the admitted settled + in-flight sum is within the amount. -/
+theorem never_overpay_admitted_kv (ops : List Op) (h : Nat) (p : Payment)
+    (hfresh : freshRun .kv Store.empty ops = true)
+    (hp : (exec .kv Store.empty ops).payment? h = some p) :
+    admittedSent (gexec .kv (Store.empty, []) ops).2 h ≤ p.value :=
+  admitted_of_ledger_eq .kv ops h p (gexec_ledger .kv ops Store.empty (fun _ => hfresh)) hp
+
+/-- under the same hypotheses the ledger IS the attempt table, for both backends. -/
+theorem ledger_eq_stored (b : Backend) (ops : List Op)
+    (hfresh : b = .kv → freshRun b Store.empty ops = true) :
+    (gexec b (Store.empty, []) ops).2 = (exec b Store.empty ops).rows := by
+  rw [← gexec_fst b (Store.empty, []) ops]
+  exact gexec_ledger b ops Store.empty hfresh
+
+/-- a history that re-registers a FAILED attempt id three times. -/
+def spamOps : List Op :=
+  [.init 0 10, .reg 0 ⟨0, 10, 0, ⟨false, 0, none⟩, .inflight⟩, .failAtt 0 0,
+   .reg 0 ⟨0, 10, 0, ⟨false, 0, none⟩, .inflight⟩, .reg 0 ⟨0, 10, 0, ⟨false, 0, none⟩, .inflight⟩,
+   .reg 0 ⟨0, 10, 0, ⟨false, 0, none⟩, .inflight⟩]
+
+/-- `kv_overpay_without_freshness` — the freshness hypothesis of `never_overpay_admitted_kv`
+    cannot be dropped: on the KV model every operation of `spamOps` is answered `ok`, 30 msat of
+    admitted attempts are in flight for a 10 msat payment, while the stored attempts sum to 0
+    (so `stored_within` is satisfied).  This is finding F-C16-kv-dup-attempt-id, reproduced on
+    the real KVStore by the harness. -/
+theorem kv_overpay_without_freshness :
+    (run .kv Store.empty spamOps).2.map (·.1) = [.ok, .ok, .ok, .ok, .ok, .ok] ∧
+    ((exec .kv Store.empty spamOps).payment? 0).map (fun p => (p.value, p.sent)) = some (10, 0) ∧
+    admittedSent (gexec .kv (Store.empty, []) spamOps).2 0 = 30 ∧
+    freshRun .kv Store.empty spamOps = false := by decide
+
+/-- the SQL model refuses every re-registration of `spamOps`. -/
+theorem sql_refuses_spam :
+    (run .sql Store.empty spamOps).2.map (·.1) = [.ok, .ok, .ok, .other, .other, .other] ∧
+    admittedSent (gexec .sql (Store.empty, []) spamOps).2 0 = 0 := by decide
 
 /-! ## register_gate -/
 
